@@ -211,8 +211,17 @@ def main():
     rflat = [o for r in rres for o in r]
     rep.add_group("E3 execution of the same histories on a populated table followed by write_fits / read_fits through the cfitsio model (BOUNDED)", len(rflat), sum(1 for o in rflat if o[1]), time.time() - t2,
                   bounded="%d histories (every history of length <= 2 with a write, %d of the random ones)" % (len(rhists), 1500 if thorough else 250), name="C16-serialisation")
-    for o in rflat:
-        if not o[1]: rep.add_violation("C16-serialisation", o[0].replace(" ", "_")[:150], o[0][:300] + ": " + o[2], trace=o[2])
+    rviol = [(h, o) for h, r in zip(rhists, rres) for o in r if not o[1]]
+    if rviol:
+        import c20, shlex
+        exe, ddir = c20.build_native()
+        for n_, (h, o) in enumerate(rviol):
+            rp = None
+            if exe and n_ < 25:
+                toks = ["0:read:A"] + ["0:%s:%s" % ("key" if op[0] == "write" else "rmkey", ":".join(op[1:])) for op in h if op[0] in ("write", "remove") and ":" not in "".join(op[1:])] + ["0:write:c16out", "1:read:c16out", "1:cmpkeys:0"]
+                rc, out, w = vlib.sh("ASAN_OPTIONS=detect_leaks=0 timeout -s KILL 120 %s %s %s 2>&1 | tail -30; exit ${PIPESTATUS[0]}" % (exe, ddir, " ".join(shlex.quote(t) for t in toks)), timeout=200)
+                rp = dict(replayed=(rc == 1 and "key stores differ" in out), input="replay_history <model disk> " + " ".join(toks)[:1500], observed=("exit %d\n" % rc) + out[-2500:], command="tools/replay/replay_history.cpp (real library + installed cfitsio: write_key / write_fits / read_fits, key stores compared)")
+            rep.add_violation("C16-serialisation", o[0].replace(" ", "_")[:150], o[0][:300] + ": " + o[2], trace=o[2], replay=rp)
     t1 = time.time(); ok, det, out = api_instantiates()
     rep.add_group("native C++ instantiation of the functions under contract (g++, ASan/UBSan smoke run)", 1, 1 if ok else 0, time.time() - t1, bounded="one program using write_key<int/double/string>, get_aux_value, read_key<int/string>, remove_key", name="C16-api-instantiates")
     if not ok: rep.add_violation("C16-api-instantiates", "write_key/get_aux_value/read_key/remove_key_instantiate_and_run", "the key-store API does not instantiate / run natively: " + det, trace=out[-3000:], replay=dict(replayed=True, input="c16_api.cpp (generated)", observed=out[-2500:]))
